@@ -208,12 +208,25 @@ int process_tarball(sqfs_dir_iterator_t *it, sqfs_writer_t *sqfs)
 			if (link != NULL &&
 			    ((ent->flags & SQFS_DIR_ENTRY_FLAG_HARD_LINK) ||
 			     !no_symlink_retarget)) {
-				if (canonicalize_name(link) == 0 &&
-				    !strncmp(link, root_becomes, rootlen) &&
-				    link[rootlen] == '/') {
-					memmove(link, link + rootlen,
-						strlen(link + rootlen) + 1);
+				/* test a canonicalized copy, a target that is
+				   not below the new root is left untouched */
+				char *target = strdup(link);
+
+				if (target == NULL) {
+					perror(ent->name);
+					free(ent);
+					free(link);
+					return -1;
 				}
+
+				if (canonicalize_name(target) == 0 &&
+				    !strncmp(target, root_becomes, rootlen) &&
+				    target[rootlen] == '/') {
+					/* never longer than the original */
+					strcpy(link, target + rootlen);
+				}
+
+				free(target);
 			}
 		} else if (ent->name[0] == '\0') {
 			is_root = true;
